@@ -165,7 +165,7 @@ func VerifC07Subst() {
 	stA := vrtChoice("stateA", 2)
 	valA := ""
 	if stA == 1 {
-		alpha := "x$"
+		alpha := "x$ "
 		if vrtParam("RICH", 0) == 1 {
 			alpha = "x${}_"
 		}
@@ -174,13 +174,15 @@ func VerifC07Subst() {
 	stU := vrtChoice("state_", 2)
 	valU := ""
 	if stU == 1 {
-		valU = vrtString("val_", 1, "y$")
+		valU = vrtString("val_", 1, "y$ ")
 	}
 	mapping := func(name string) (string, bool) {
-		switch name {
-		case "A", "a":
+		// two variables, each known under every name of its family: names starting with a letter of {A a Z z}
+		// (A, a, A9, z0Z ...) and names starting with an underscore
+		switch c07Family(name) {
+		case 1:
 			return valA, stA == 1
-		case "_":
+		case 2:
 			return valU, stU == 1
 		}
 		return "", false
@@ -225,8 +227,8 @@ func VerifC07Subst() {
 // covered at lengths the free-string harness does not reach.
 func VerifC07Grammar() {
 	pre := vrtString("pre", vrtParam("PRE", 1), "$A x")
-	names := []string{"A", "_"}
-	name := names[vrtChoice("name", 2)]
+	names := []string{"A", "_", "A9"}
+	name := names[vrtChoice("name", 3)]
 	op := vrtString("op", 2, ":-+?")
 	inner := vrtString("inner", vrtParam("IL", 2), "${}:-A_x")
 	postAlpha := "${}A x"
@@ -241,9 +243,9 @@ func VerifC07Grammar() {
 // VerifC07Two: two operator substitutions in one template, possibly of the same variable (each reference is
 // evaluated on its own: what the first one found says nothing about the second).
 func VerifC07Two() {
-	names := []string{"A", "_"}
-	n1 := names[vrtChoice("name1", 2)]
-	n2 := names[vrtChoice("name2", 2)]
+	names := []string{"A", "_", "z0Z9"}
+	n1 := names[vrtChoice("name1", 3)]
+	n2 := names[vrtChoice("name2", 3)]
 	ops := []string{":-", "-", ":+", "+", ":?", "?"}
 	op1 := ops[vrtChoice("op1", 6)]
 	op2 := ops[vrtChoice("op2", 6)]
@@ -258,11 +260,24 @@ func VerifC07Two() {
 	c07Check(tmpl)
 }
 
+func c07Family(name string) int {
+	if name == "" {
+		return 0
+	}
+	switch name[0] {
+	case 'A', 'a', 'Z', 'z':
+		return 1
+	case '_':
+		return 2
+	}
+	return 0
+}
+
 func c07Check(tmpl string) {
 	stA := vrtChoice("stateA", 2)
 	valA := ""
 	if stA == 1 {
-		alpha := "x$"
+		alpha := "x$ "
 		if vrtParam("RICH", 0) == 1 {
 			alpha = "x${}_"
 		}
@@ -271,13 +286,15 @@ func c07Check(tmpl string) {
 	stU := vrtChoice("state_", 2)
 	valU := ""
 	if stU == 1 {
-		valU = vrtString("val_", 1, "y$")
+		valU = vrtString("val_", 1, "y$ ")
 	}
 	mapping := func(name string) (string, bool) {
-		switch name {
-		case "A", "a":
+		// two variables, each known under every name of its family: names starting with a letter of {A a Z z}
+		// (A, a, A9, z0Z ...) and names starting with an underscore
+		switch c07Family(name) {
+		case 1:
 			return valA, stA == 1
-		case "_":
+		case 2:
 			return valU, stU == 1
 		}
 		return "", false
@@ -322,7 +339,7 @@ func c07Check(tmpl string) {
 func VerifC07Tokens() {
 	// single symbols, and a few two-symbol phrases so that nested and escaped shapes are within three tokens
 	dict := []string{"$", "{", "}", "${", ":-", "-", ":+", "+", ":?", "?", ":", "A", "_", "x", "$$", " ", "é", "${A", "$A",
-		"${A:-", "${_:-", "${A:?", "${_+", "$${A}", "$$A}", "$${", "} ", "}x"}
+		"${A:-", "${_:-", "${A:?", "${_+", "$${A}", "$$A}", "$${", "} ", "}x", "9", "Z", "${A9:-", "$a0z"}
 	n := 1 + vrtChoice("tokens", vrtParam("TOK", 3))
 	tmpl := ""
 	for k := 0; k < n; k++ {
